@@ -84,6 +84,8 @@ def execute(desc):
         if r.mr("checkpoint", "update", "-p").code != 0:
             raise common.EngineError("seed checkpoint failed")
         viol = []
+        pristine = sc.snapshot(r.out_dir())   # before any contender exists
+        touched = False                       # becomes True once a holder was allowed to work
         c = ctlmod.Controller(s)
         states = set()
         try:
@@ -144,6 +146,9 @@ def execute(desc):
                             if len(c.children) != nchildren:
                                 viol.append(("loser-started-executable", "%s lost the lock but an executable was started" % apis[i]))
                             after = sc.snapshot(r.out_dir())
+                            if not touched and after != pristine and after == before:
+                                diff = sorted(set(after.items()) ^ set(pristine.items()))[:4]
+                                viol.append(("contender-modified-state-before-locking", "no invocation has been past lock acquisition and finished, yet <out_dir> differs from its state before the contenders were started: %s" % diff))
                             if after != before:
                                 diff = sorted(set(after.items()) ^ set(before.items()))[:4]
                                 viol.append(("loser-modified-state", "%s lost the lock but <out_dir> changed: %s" % (apis[i], diff)))
@@ -160,6 +165,7 @@ def execute(desc):
                     overlapped = i
                     status[i] = "attempting" if not p.done() else "done"
                 elif kind == "F":
+                    touched = True
                     c.resume(hit_of(i, "lock.post"))
                     t_end = time.time() + 20
                     while not p.done() and time.time() < t_end:
@@ -239,7 +245,7 @@ def run(prop, tier):
            "distinct_nontrivial": sum(r["nontrivial"] for r in results),
            "violations": [v for r in results for v in r["violations"]],
            "samples": [r["sample"] for r in results[:: max(1, len(results) // 5)]][:6], "exhaustive": True,
-           "rule": "contenders: every ordered pair (thorough: plus every multiset of 3) over {run, checkpoint update, checkpoint delete, out delete --all}, all started and held at lock.pre; every maximal sequence of {attempt i, finish holder, kill holder (SIGKILL)}, plus for pairs an attempt that is still in progress (2 s, bind timeout raised to 6 s) when the holder finishes or is killed; each sequence executed from scratch on real processes against a repository with a checkpoint and a completed run; invariants: never two contenders past lock acquisition; an attempt while somebody holds exits non-zero with a server lock error, starts no executable and leaves <out_dir> byte-identical; an attempt while nobody holds (initially, after exit, after SIGKILL) acquires at once; states = (contender statuses, holder) per contender tuple"}
+           "rule": "contenders: every ordered pair (thorough: plus every multiset of 3) over {run, checkpoint update, checkpoint delete, out delete --all}, all started and held at lock.pre; every maximal sequence of {attempt i, finish holder, kill holder (SIGKILL)}, plus for pairs an attempt that is still in progress (2 s, bind timeout raised to 6 s) when the holder finishes or is killed; each sequence executed from scratch on real processes against a repository with a checkpoint and a completed run; invariants: never two contenders past lock acquisition; an attempt while somebody holds exits non-zero with a server lock error, starts no executable and leaves <out_dir> byte-identical (also compared with its state before any contender was started, as long as no holder has worked); an attempt while nobody holds (initially, after exit, after SIGKILL) acquires at once; states = (contender statuses, holder) per contender tuple"}
     by = {}
     for v in agg["violations"]:
         by[v["sig"]] = by.get(v["sig"], 0) + 1
